@@ -1,5 +1,34 @@
-(* Properties/C05.v — weighted graph.  Statements only. *)
-From Verif Require Import Base.Str Base.Outcome Model.Ast Model.WGraph Model.WWeights.
+(* Properties/C05.v — accepted iff well-founded; rewrite-only cycles never pass.
+   Statements only.  Proved: the self-loop rule after the repair F9, totality, and — with kernel-computed
+   witnesses — that on models with a cycle that are not well-founded the verdict of the transcribed
+   algorithm depends on the depth-first start order and that a relation reaching no terminal type is
+   accepted (known finding K-WG-cycles).  The equivalence "accepted iff well-founded" itself is not proved;
+   on every run the verdict under each explicit start order is compared with well-foundedness computed on
+   the model (run/lib/graphspec.well_founded), and any disagreement outside the finding's region is reported. *)
+From Verif Require Import Base.Str Base.Outcome Model.Ast Model.Printer Model.WGraph Model.WWeights
+  Proofs.WeightsProofs Proofs.Witnesses.
 
-Theorem C05_empty_model : forall s, build_weighted None {| m_schema := s; m_types := []; m_conds := [] |} = Ok empty_graph.
-Proof. reflexivity. Qed.
+(* 1. a relation defined as itself (`define a: a`): the computed self edge is a model cycle, for every graph,
+      path and fuel — it is never resolved as a tuple cycle (repair F9) *)
+Theorem C05_self_rewrite_is_model_cycle : forall fuel r path s e,
+  edge_at (ws_g s) r = Some e -> e_from e = e_to e -> e_type e = EComputed \/ e_type e = ERewrite ->
+  snd (fst (calc_edge (S fuel) r path s)) = Some WModelCycle.
+Proof.
+  intros fuel r path s e He Hself Hk. cbn [calc_edge]. rewrite He, Hself, str_eqb_refl.
+  destruct Hk as [-> | ->]; reflexivity.
+Qed.
+
+Theorem C05_total : forall o m, is_panic (build_weighted o m) = false.
+Proof. exact build_weighted_no_panic. Qed.
+
+(* 2. refuted on cyclic models that are not well-founded: the verdict depends on the start order ... *)
+Theorem C05_order_refuted :
+  exists m o1 o2, is_ok (build_weighted (Some o1) m) = false /\ is_ok (build_weighted (Some o2) m) = true.
+Proof.
+  exists m_order, o_insertion, o_other. split; [rewrite m_order_rejected; reflexivity|exact m_order_accepted].
+Qed.
+
+(* ... and a relation that can reach no terminal type is accepted *)
+Theorem C05_no_terminal_type_refuted :
+  exists g, build_weighted None m_empty = Ok g /\ n_weights (node_of g (lit "doc#c")) = [].
+Proof. exact m_empty_accepted. Qed.
